@@ -314,6 +314,51 @@ def r3(ctx: Ctx):
   ctx.floor(rule, 4)
 
 
+def _is_inc(n) -> bool:
+  return n.kind == 'stmt' and isinstance(n.ast, ast.AugAssign) and (
+      is_self_attr(n.ast.target, '_index') and isinstance(n.ast.op, ast.Add) and unparse(n.ast.value) == '1')
+
+
+def _draw_nodes(g):
+  return [n for n in g.nodes if any(
+      isinstance(x, ast.Call) and unparse(x.func) == 'next' and x.args
+      and unparse(x.args[0]) == 'self._it' for x in cfgm.node_exprs(n))]
+
+
+def draw_helpers(repo, clsname: str) -> set[str]:
+  """Methods of the iterator class that draw ONE element and count it: on every normal path exactly one
+  next(self._it) followed by exactly one `self._index += 1` (a callee summary: a call of such a helper is a
+  paired draw)."""
+  ci = repo.cls(IO, clsname)
+  out = set()
+  for name, m in ci.methods.items():
+    if name in ('__next__', '__init__', '__iter__'):
+      continue
+    g = cfgm.cfg_of(m.node)
+    nexts = _draw_nodes(g)
+    if len(nexts) != 1:
+      continue
+    nx = nexts[0]
+    ok = g.dominates(lambda n: n is nx, g.exit_ret, edge_ok=cfgm.only_normal) is None
+    for st, lab in nx.succ:
+      if lab in ('exc', 'close'):
+        continue
+      if _is_inc(st):
+        reach = g.reachable([st], avoid=lambda n: n is g.exit_ret, edge_ok=cfgm.only_normal)
+        ok = ok and not any(_is_inc(n) for n in reach if n is not st)
+      else:
+        ok = ok and st is not g.exit_ret and g.must_pass(st, [g.exit_ret], _is_inc, cfgm.only_normal) is None
+    if ok:
+      out.add(name)
+  return out
+
+
+def _helper_calls(g, helpers):
+  return [n for n in g.nodes if any(
+      isinstance(x, ast.Call) and isinstance(x.func, ast.Attribute) and is_self_attr(x.func) and x.func.attr in helpers
+      for top in cfgm.node_exprs(n) for x in ast.walk(top))]
+
+
 def r4(ctx: Ctx):
   rule = 'R-C09-4'
   ctx.rule(rule, 'index bookkeeping: in SequenceIterator.__next__ and'
@@ -330,8 +375,19 @@ def r4(ctx: Ctx):
         and unparse(x.args[0]) == 'self._it' for x in cfgm.node_exprs(n))]
     # `for x in self._it:` consumes one element per entry into the loop body
     nexts += [n for n in g.nodes if n.kind == 'for_iter' and unparse(n.ast.iter) == 'self._it']
-    if not nexts:
+    # draws through a counting helper (`self._draw()`: one next + one increment, verified as a summary)
+    helpers = draw_helpers(repo, qn.split('.')[0])
+    paired = _helper_calls(g, helpers)
+    if not nexts and not paired:
       raise AnalysisError(f'{rule}: {qn} has no next(self._it)')
+    for pc in paired:
+      reach = g.reachable([s_ for s_, lab in pc.succ if lab not in ('exc', 'close')],
+                          avoid=lambda n: n in nexts or n in paired or n is g.exit_ret, edge_ok=cfgm.only_normal, include_src=True)
+      if any(_is_inc(n) for n in reach):
+        ctx.fail(rule, fi, pc.ast, f'{qn}: the index is incremented again after a counting draw `{pc.text()[:40]}`: checkpoints'
+                 ' and round-robin membership drift from the real position')
+      else:
+        ctx.ok(rule, fi, f'{pc.text()[:40]} draws and counts one element (helper summary)', pc.ast)
     inc = lambda n: n.kind == 'stmt' and isinstance(n.ast, ast.AugAssign) and (
         is_self_attr(n.ast.target, '_index') and isinstance(n.ast.op, ast.Add)
         and unparse(n.ast.value) == '1')
@@ -1054,7 +1110,7 @@ VARIANTS = [
       '    self._it = iter(config.data[config.start : config.end])',
       '    self._it = iter(config.data[config.start :])', 'R-C09-3'),
     B('skip-without-index', _F,
-      '    while self._index % num_shards != shard_index:\n      _ = next(self._it)\n      self._index += 1',
+      '    while self._index % num_shards != shard_index:\n      _ = self._draw()',
       '    while self._index % num_shards != shard_index:\n      _ = next(self._it)',
       'R-C09-4'),
     B('round-robin-swapped', _F,
